@@ -1375,7 +1375,7 @@ func pathLocalSX(sx *SX) bool {
 		return false
 	}
 	switch sx.Head() {
-	case "dyn", "local", "calls", "callarg", "callres", "atloop", "athead":
+	case "dyn", "local", "calls", "callarg", "callres", "callresn", "atloop", "athead":
 		return true
 	}
 	for _, c := range sx.List {
